@@ -352,10 +352,17 @@ class DataObject(JSONSerializable):
                 setattr(self, k, v)
             elif self.isDifferent(v, getattr(self, k)):
                 # Attribute was set, and had another value than other's
+                if k in self.SECRETS_ATTRIBUTES:
+                    # Never expose secret values (the message is logged)
+                    selfval = f"<SECRET_VALUE({type(getattr(self, k))})>"
+                    otherval = f"<SECRET_VALUE({type(v)})>"
+                else:
+                    selfval = getattr(self, k)
+                    otherval = v
                 err = (
                     f"Merging conflict. Attribute '{k}' exist on both objects with"
                     f" differents values ({repr(self)}:"
-                    f" '{getattr(self, k)}' / {repr(other)}: '{v}')"
+                    f" '{selfval}' / {repr(other)}: '{otherval}')"
                 )
                 if raiseExceptionOnConflict:
                     raise HermesMergingConflictError(err)
